@@ -994,6 +994,17 @@ impl<A: AvxNum, T: FftNum> AvxPlannerInternal<A, T> {
     }
 }
 
+#[cfg(rustfft_verif)]
+impl<T: FftNum> FftPlannerAvx<T> {
+    /// Verification hook: Debug text of the plan for `len`, given what is cached right now
+    pub fn verif_plan(&self, len: usize, direction: FftDirection) -> String {
+        format!(
+            "{:?}",
+            self.internal_planner.debug_plan_fft(len, direction)
+        )
+    }
+}
+
 #[cfg(test)]
 mod unit_tests {
     use super::*;
